@@ -42,7 +42,7 @@ LEVEL_NOTE = ('Trusted: NumPy arithmetic, Hypothesis, evaluation of ODL leaf '
               'derived per case from a perturbed re-run of the reference '
               '(rounding-error propagation through the same tree).')
 DESIGN_REF = 'DESIGN.md section 5, C04'
-BUDGET = {'quick': 8000, 'thorough': 100000}
+BUDGET = {'quick': 8000, 'thorough': 60000}
 NOISE = 4.0
 TOLERANCES = {
     'value': '|got-ref|_max <= 16*delta + 64*eps(dtype)*(depth+1)*|ref|_max '
@@ -230,8 +230,12 @@ def _known_inplace_region(env, b):
 
 
 def _aliasing_leaf(node):
-    while node['op'] == 'pos' or (node['op'] == 'pow' and node['n'] == 1):
-        node = node['a']
+    """The operator returns (a view of) its argument when called
+    out-of-place: RealPart / ImagPart and what merely forwards to them."""
+    if node['op'] in ('pos', 'pow'):
+        return _aliasing_leaf(node['a'])
+    if node['op'] == 'comp':
+        return _aliasing_leaf(node['a']) and _aliasing_leaf(node['b'])
     return node['op'] == 'leaf' and node['kind'] in ('realpart', 'imagpart')
 
 
